@@ -48,6 +48,20 @@ async fn handler(req: &mut Request<'_, MockR, MockW>, ops: Vec<HOp>, propagate: 
     let ev = |s: String| sh.lock().unwrap().events.push(s);
     writers.lock().unwrap().clear();   // writer slots are per request
     ev(format!("HS({},{},{})", u16::from(req.role()), u8::from(req.flags()), env_str_async(req)));
+    // the accessor API of the async Request against its iterator (the model never emits this event)
+    {
+        use fastcgi_server::cgi::VarName;
+        let items: Vec<(String, Vec<u8>)> = req.env_iter().map(|(k, v)| (k.as_ref().to_string(), v.to_vec())).collect();
+        let mut bad: Option<String> = None;
+        if req.env_len() != items.len() { bad = Some("env_len".into()); }
+        for (k, v) in &items { for name in [k.clone(), k.to_ascii_lowercase()] {
+            let vn = VarName::new(&name);
+            if !req.contains_var(vn) || req.get_var(vn) != Some(&v[..]) || req.get_var_str(vn) != std::str::from_utf8(v).ok() { bad = Some(format!("lookup:{}", hexd(name.as_bytes()))); }
+        } }
+        let vn = VarName::new("X_VERIF_ABSENT");
+        if !items.iter().any(|(k, _)| k == "X_VERIF_ABSENT") && (req.contains_var(vn) || req.get_var(vn).is_some()) { bad = Some("absent-found".into()); }
+        if let Some(b) = bad { ev(format!("ACC!{b}")); }
+    }
     macro_rules! fail { ($e:expr, $msg:expr) => {{ ev($msg); if propagate { return Err($e); } else { continue; } }}; }
     for op in ops {
         match op {
@@ -61,7 +75,7 @@ async fn handler(req: &mut Request<'_, MockR, MockW>, ops: Vec<HOp>, propagate: 
             HOp::Consume(k) => { Pin::new(&mut *req).consume(k); }
             HOp::SetStream(t) => { req.set_stream(fcgi::RecordType::try_from(t).expect("stream type")); ev("s=ok".into()); }
             HOp::Writeable => { match req.writeable().await { Ok(()) => ev("w=ok".into()), Err(e) => fail!(e, format!("w!{}", io_kind(&e))) } }
-            HOp::Open(t) => { let w = req.output_stream(fcgi::RecordType::try_from(t).expect("stream type")); let mut g = writers.lock().unwrap(); g.push(Some(w)); let n = g.len() - 1; drop(g); ev(format!("o=w{n}")); }
+            HOp::Open(t) => { let w = req.output_stream(fcgi::RecordType::try_from(t).expect("stream type")); if u8::from(w.stream()) != t { ev(format!("ACC!writer-stream:{}", u8::from(w.stream()))); } let mut g = writers.lock().unwrap(); g.push(Some(w)); let n = g.len() - 1; drop(g); ev(format!("o=w{n}")); }
             HOp::DropW(i) => { let mut g = writers.lock().unwrap(); if let Some(slot) = g.get_mut(i) { *slot = None; } }
             HOp::WriteAll(i, data) => {
                 let w = { let mut g = writers.lock().unwrap(); g.get_mut(i).and_then(|s| s.take()) };
